@@ -217,6 +217,8 @@ def sanctioned_worker_exits(F, sp):
                 out.append(('shutdown-flag', sw.edges_for(True)))
     for c in w.calls_to('Receiver::recv'):
         out.append(('control-channel-closed', w.branch(c, 'Err')))
+    for c in w.calls_to('JobBroker::is_open'):
+        out.append(('market-closed', w.branch(c, False)))
     return out
 
 
